@@ -23,4 +23,4 @@ Produce THREE different changes (each a separate small patch against the clean w
  * makes the property false for SOME inputs, but needs something specific to manifest — an unusual input, a particular parameter setting, a multi-step sequence of operations, a particular seed/history, or two cooperating sites that each look fine alone — NOT something every ordinary use would expose at once;
  * looks like a plausible mistake or "optimisation" a maintainer could make (no sabotage comments, no dead code);
  * is different in kind from the other two (different clause of the property, different file or mechanism).
-For each change write, in {out}/<k>/ (k = 1,2,3): `patch.diff` (output of `git diff` in the worktree), `demo.py` (a small self-contained program that uses msdm's public API on a concrete input and asserts the property clause with an independent computation; it must exit 0 on the clean tree and non-zero with the patch applied — verify both, switching with `git stash`/`git checkout -- .`), and `notes.md` (which clause breaks, what the input needs in order to manifest, what you ran and the observed outputs). Reset the worktree to clean (`git checkout -- .`) between changes and at the end. Final answer: a short summary of the three changes and the verification you did.""")
+For each change write, in {out}/<k>/ (k = 1,2,3): `patch.diff` (output of `git diff` in the worktree), `demo.py` (a small self-contained program that uses msdm's public API on a concrete input and asserts the property clause with an independent computation; it must exit 0 on the clean tree and non-zero with the patch applied — verify both, switching by saving the diff to a file: `git diff > p.diff; git checkout -- .` then `git apply p.diff` — do NOT use `git stash`: the stash stack is shared by all worktrees of the repository and other agents are working concurrently), and `notes.md` (which clause breaks, what the input needs in order to manifest, what you ran and the observed outputs). Reset the worktree to clean (`git checkout -- .`) between changes and at the end. Final answer: a short summary of the three changes and the verification you did.""")
